@@ -9,7 +9,7 @@ import sys
 seed = sys.argv[1]
 HERE = os.path.join(os.path.dirname(os.path.abspath(__file__)), "..")
 ids = sys.argv[2:] or sorted(d for d in os.listdir(os.path.join(HERE, "seeded")) if os.path.isdir(os.path.join(HERE, "seeded", d)))
-out = os.path.join(HERE, "seeded", "robustness.json")
+out = os.environ.get("SEEDROBUST_OUT") or os.path.join(HERE, "seeded", "robustness.json")
 for sid in ids:
     meta = json.load(open(os.path.join(HERE, "seeded", sid, "meta.json")))
     if "scope" in meta or "base" in meta:
